@@ -321,7 +321,7 @@ Proof.
     destruct f as [|b d]; [congruence|].
     rewrite (after_last_brace_none _ Hnb).
     rewrite IH.
-    + cbn [s_buf]. rewrite <- app_assoc. reflexivity.
+    + cbn [s_buf]. rewrite <- app_assoc, app_nil_r. reflexivity.
     + cbn [s_open]. exact Ho.
     + intros g Hg. apply Hf. right. exact Hg.
     + cbn [s_buf]. rewrite zlen_app. lia.
